@@ -13,6 +13,7 @@ import ckpt_recorder
 HERE = os.path.dirname(os.path.abspath(__file__))
 VERIF = os.path.dirname(HERE)
 OUT = os.path.join(VERIF, 'out', 'traces')
+REPO = os.environ.get('VERIF_REPO', '/repo')      # bin/try_mutant_wt points this at a scratch worktree
 
 
 def record_tests(timeout=900):
@@ -21,10 +22,10 @@ def record_tests(timeout=900):
   path = os.path.join(OUT, 'ckpt_tests.json')
   for f in glob.glob(path + '*'):
     os.remove(f)
-  env = dict(os.environ, CKPT_TRACE_OUT=path, PYTHONPATH=HERE + ':/repo', JAX_PLATFORMS='cpu', PYTHONDONTWRITEBYTECODE='1')
+  env = dict(os.environ, CKPT_TRACE_OUT=path, PYTHONPATH=HERE + ':' + REPO, JAX_PLATFORMS='cpu', PYTHONDONTWRITEBYTECODE='1')
   p = subprocess.run([sys.executable, '-m', 'pytest', '-q', '-x', '-p', 'verif_compat', '-p', 'ckpt_recorder', '-p', 'no:cacheprovider',
                       '--timeout=600', 'tests/checkpoints_test.py', '-k', 'not multiprocess and not mpa'],
-                     cwd='/repo', env=env, capture_output=True, text=True, timeout=timeout)
+                     cwd=REPO, env=env, capture_output=True, text=True, timeout=timeout)
   eps = []
   for f in glob.glob(path + '*'):
     eps += json.load(open(f))
@@ -34,7 +35,7 @@ def record_tests(timeout=900):
 def record_driver(seed, n, timeout=1800, ambiguous=False):
   os.makedirs(OUT, exist_ok=True)
   path = os.path.join(OUT, f'ckpt_driver_{seed}{"_amb" if ambiguous else ""}.json')
-  env = dict(os.environ, PYTHONPATH=HERE + ':/repo', JAX_PLATFORMS='cpu', PYTHONDONTWRITEBYTECODE='1')
+  env = dict(os.environ, PYTHONPATH=HERE + ':' + REPO, JAX_PLATFORMS='cpu', PYTHONDONTWRITEBYTECODE='1')
   p = subprocess.run([sys.executable, os.path.join(HERE, 'ckpt_trace_driver.py'), path, str(seed), str(n)] + (['ambiguous'] if ambiguous else []),
                      env=env, capture_output=True, text=True, timeout=timeout)
   if p.returncode != 0 or not os.path.exists(path):
